@@ -1,0 +1,12 @@
+//go:build verif
+
+package common
+
+// VerifItems returns a copy of the set's elements in insertion order (verification hook,
+// build tag `verif` only).
+func (s *Set[T]) VerifItems() []T {
+	if s == nil {
+		return nil
+	}
+	return append([]T{}, s.slice...)
+}
